@@ -9,9 +9,9 @@
           runBTR r σ  agrees with  X86.step i st   on every register, flag, memory byte and the next address
 
   WHAT IS PROVED HERE (all of it universal over operand values / register contents / states; nothing is bounded):
-    (A) mirror + theorem, INSTRUCTION LEVEL (`lift_correct_rr/ri/un/rm/mr/mi/lea`): 64-bit mode,
+    (A) mirror + theorem, INSTRUCTION LEVEL (`lift_correct_rr/ri/un/rm/mr/mi/lea/setcc`): 64-bit mode,
         {mov add sub cmp and or xor} x (reg,reg | reg,imm | reg,[mem] | [mem],reg | [mem],imm), lea, and
-        {inc dec neg not} x register; memory operands = base + index*scale + disp with 64-bit registers or rip, mapped
+        {inc dec neg not} x register, setcc r8 (14 codes); memory operands = base + index*scale + disp with 64-bit registers or rip, mapped
         and non-wrapping accesses; registers at every operand size and shape — 64-bit, 32-bit (zero-extending), 16-bit, low byte, and the high-byte
         registers ah/ch/dh/bh — every pair of registers (aliasing included), every state: `runBTR` of the mirrored
         `BlockTranslationResult` agrees with `X86.step` on all sixteen general registers, CF ZF SF OF, memory and the
@@ -39,6 +39,7 @@ import FalconProofs.C01.RegIL
 import FalconProofs.C01.Alu
 import FalconProofs.C01.Unary
 import FalconProofs.C01.MemForms
+import FalconProofs.C01.Setcc
 
 namespace Falcon.C01.Props
 open Falcon Falcon.X86 Falcon.X86Lift Falcon.Const Falcon.Sem Falcon.C01
@@ -309,6 +310,40 @@ theorem lift_correct_lea {d : GReg} (hd : Shape d) (hd16 : 16 ≤ d.bits) (hdi :
     instruction `mov [mem], r` as an instance (the final IL memory is the specification's) -/
 theorem store_bytes {σ : State} {st : St} (ha : Abs σ st) (m' : ByteMem) : Abs { σ with mem := m' } { st with mem := m' } :=
   abs_store ha m'
+
+/-! ### flag consumers -/
+
+/-- `cc_condition` under the state relation: for the fourteen condition codes that do not read PF the expression
+    exists and `State::symbolize_and_eval` yields the SDM's condition (this is `il_cc_condition` in the form the
+    instruction-level theorems use) -/
+theorem il_cc_condition_ev {σ : State} {st : St} (hok : Abs σ st) (c : Nat) (hc : c < 16) (hp : c ≠ 10 ∧ c ≠ 11) :
+    ∃ e, ccExpr c = .ok e ∧ e.bits = 1 ∧ σ.evalIn e = .ok (ofBV (BitVec.ofBool (X86.cond st c))) := by
+  obtain ⟨e, h1, h2, h3⟩ := ev_cc hok c hc hp
+  exact ⟨e, h1, h2, h3.evalIn⟩
+
+/-- **lift_correct_setcc**: `setcc r8` for a low- or high-byte register, every mnemonic `m` that capstone maps to
+    condition code `c` (`splitCc m = some ("set", c)`), fourteen codes -/
+theorem lift_correct_setcc {m : String} {c : Nat} (hs : splitCc m = some ("set", c)) (hc : c < 16) (hp : c ≠ 10 ∧ c ≠ 11)
+    {d : GReg} (hd : Shape d) (hd8 : d.bits = 8) (hdi : d.idx < 16) (addr len : Nat) (haddr : addr + len < 2 ^ 64)
+    (σ : State) (st : St) (hok : Abs σ st) :
+    ∃ ops, opsSetcc .amd64 c d = .ok ops ∧ Agrees (straight addr len ops) σ (ins1m m addr len d) st :=
+  lift_setcc hs hc hp hd hd8 hdi addr len haddr σ st hok
+
+/-- `mov r32, r32` with the SAME register (e.g. `mov eax, eax`) clears bits 63:32 of the 64-bit register: the lifted
+    IL's final value of the full register is the zero-extension of its low half.  (A lifter that emits nothing for this
+    instruction — seeded change C01-m3 — differs from the mirror syntactically and cannot satisfy this statement.) -/
+theorem mov_r32_self_clears_upper (i : Nat) (hi : i < 16) (addr len asz : Nat) (haddr : addr + len < 2 ^ 64)
+    (σ : State) (st : St) (hok : Abs σ st) :
+    ∃ r σ', liftRR .amd64 "mov" addr len ⟨i, 32, 0⟩ ⟨i, 32, 0⟩ = .ok r ∧ runBTR r σ = .next σ' [addr + len] ∧
+      σ'.get (rName i) = some (ofBV (((st.gpr i).setWidth 32).setWidth 64)) := by
+  obtain ⟨r, hr, σ', st', h1, h2, h3, _⟩ :=
+    lift_rr (m := "mov") (by decide) (Shape.r32 i) (Shape.r32 i) rfl hi hi addr len asz haddr σ st hok
+  have hsp := step_mov addr len asz ⟨i, 32, 0⟩ st (src_reg st (Shape.r32 i) rfl hi) haddr
+  rw [hsp] at h2
+  injection h2 with h2 _ _
+  refine ⟨r, σ', hr, h1, ?_⟩
+  rw [h3.gpr i hi, ← h2]
+  simp [setReg, mergeReg, getReg]
 
 /-! ### non-vacuity -/
 
